@@ -335,3 +335,8 @@ func ParamFor(tag, key string, val interface{}) {
 // whose name ends with calleeSuffix, with result standing for that call's result. Natively it does
 // nothing and returns false: region harnesses are engine-only (model-level).
 func RunRegion(fn, calleeSuffix string, result interface{}) bool { return false }
+
+// SigVerdict (engine) is the ideal-signature verdict the intercepted VerifyBytes returns for the
+// same (key bytes, message, signature). Natively there is no such oracle: harnesses using it are
+// engine-only (model-level).
+func SigVerdict(pk, msg, sig []byte) bool { return false }
